@@ -206,10 +206,11 @@ fn replay_keys(case: &Value, ctx: &mut Ctx) {
 /// same position (squares, side, rights, mark) => same hash, however reached
 fn transpositions(run: &mut Run, depth: u32) {
     let cap = if run.thorough() { 12_000_000 } else { 3_000_000 };
-    // quick: the first 8 seeds (initial, Kiwipete, CPW 3 and 4 and their mirrors)
-    let seeds = uni::seeds();
-    let nseeds = if run.thorough() { seeds.len() } else { 8 };
-    let (states, capped) = reach_states_from(&seeds[..nseeds], depth, cap);
+    // quick: initial position, Kiwipete, CPW position 3 and the mirrored castling-rich seed
+    let all = uni::seeds();
+    let seeds: Vec<Pos> = if run.thorough() { all.clone() } else { vec![all[0], all[2], all[4], all[15]] };
+    let nseeds = seeds.len();
+    let (states, capped) = reach_states_from(&seeds, depth, cap);
     if capped {
         run.exhaustive = false;
         run.caps.push(format!("TRANSPOSITIONS: REACH({}) state cap {} reached", depth, cap));
